@@ -94,6 +94,6 @@ def Supply.decWF : (s : Supply) → Decidable s.WF
   | .constrained Q D P => inferInstanceAs (Decidable (1 ≤ Q ∧ Q ≤ D ∧ D ≤ P))
   | .viaDefault s => Supply.decWF s
 
-instance (s : Supply) : Decidable s.WF := Supply.decWF s
+instance Supply.instDecWF (s : Supply) : Decidable s.WF := Supply.decWF s
 
 end RTA
